@@ -389,9 +389,7 @@ func (r *Runtime) arrayproto_sort(call FunctionCall) Value {
 	}
 
 	var s sortable
-	if r.checkStdArrayObj(o) != nil {
-		s = o.self
-	} else if _, ok := o.self.(reflectValueWrapper); ok {
+	if _, ok := o.self.(reflectValueWrapper); ok {
 		s = o.self
 	}
 
@@ -403,12 +401,21 @@ func (r *Runtime) arrayproto_sort(call FunctionCall) Value {
 
 		sort.Stable(&ctx)
 	} else {
-		length := toLength(o.self.getStr("length", nil))
-		a := make([]Value, 0, length)
-		for i := int64(0); i < length; i++ {
-			idx := valueInt(i)
-			if o.self.hasPropertyIdx(idx) {
-				a = append(a, nilSafe(o.self.getIdx(idx, nil)))
+		var a []Value
+		var length int64
+		if src := r.checkStdArrayObj(o); src != nil {
+			// The comparator may modify the array, so sort a copy.
+			length = int64(len(src.values))
+			a = make([]Value, length)
+			copy(a, src.values)
+		} else {
+			length = toLength(o.self.getStr("length", nil))
+			a = make([]Value, 0, length)
+			for i := int64(0); i < length; i++ {
+				idx := valueInt(i)
+				if o.self.hasPropertyIdx(idx) {
+					a = append(a, nilSafe(o.self.getIdx(idx, nil)))
+				}
 			}
 		}
 		ar := r.newArrayValues(a)
